@@ -692,6 +692,8 @@ impl Check for C03 {
 struct Req {
     size: usize,
     align: usize,
+    /// reached by doubling reallocs from an eighth of the size (a growing Vec)
+    grow: bool,
 }
 
 struct Round {
@@ -720,7 +722,7 @@ fn gen_round(dec: &mut Dec) -> Round {
                 size = 1 + size % 9000;
             }
         }
-        reqs.push(Req { size, align: if profile == 7 { 1usize << dec.choose(K::Arg, 5) } else { gen_align(dec) } });
+        reqs.push(Req { size, align: if profile == 7 { 1usize << dec.choose(K::Arg, 5) } else { gen_align(dec) }, grow: dec.chance(K::Arg, 1, 5) });
     }
     let mut free_order: Vec<usize> = (0..n).collect();
     match dec.choose(K::Cfg, 4) {
@@ -815,7 +817,25 @@ fn run_footprint_single(dec: Dec, opts: &RunOpts, rounds: usize) -> RunOut {
                             }
                         }
                     }
-                    let p = unsafe { a.malloc(q.size, q.align) } as usize;
+                    let p = if q.grow && q.size >= 16 {
+                        // grow to the size by doubling, like a Vec being pushed to
+                        let mut cur = (q.size / 8).max(1);
+                        let mut p = unsafe { a.malloc(cur, q.align) } as usize;
+                        while p != 0 && cur < q.size {
+                            let next = (cur * 2).min(q.size);
+                            let np = unsafe { a.realloc(p as *mut u8, cur, q.align, next) } as usize;
+                            stats.reallocs += 1;
+                            if np == 0 {
+                                // the old block stays valid: give it back, this request is not served
+                                unsafe { a.free(p as *mut u8) };
+                            }
+                            p = np;
+                            cur = next;
+                        }
+                        p
+                    } else {
+                        (unsafe { a.malloc(q.size, q.align) }) as usize
+                    };
                     stats.allocs += 1;
                     if p == 0 {
                         stats.nulls += 1;
@@ -872,7 +892,7 @@ fn run_footprint_single(dec: Dec, opts: &RunOpts, rounds: usize) -> RunOut {
     let mut out = finish(&mut sim, &k, &stats, false, opts, sample, panic_v.or(gv));
     out.nontrivial = round.reqs.len() >= 3 && out.counters.get("probe.munmap_calls").copied().unwrap_or(0) + out.counters.get("probe.trim_by_mremap_shrink").copied().unwrap_or(0) >= 1;
     out.counters.insert("rounds", rounds as u64);
-    out.counters.insert("probe.footprint_ratio_end_over_peak_live_x100_max", 0);
+    out.counters.insert("probe.runs_with_realloc_growth", u64::from(round.reqs.iter().any(|q| q.grow && q.size >= 16)));
     out
 }
 
@@ -958,7 +978,7 @@ impl Check for C04 {
         }
     }
     fn rule(&self) -> String {
-        "each case = one seeded workload round (1..50 requests from the C03 size profiles and alignments, free order forward/reverse/interleaved/random, optional steady-state churn, optional sparse mmap refusals) repeated N times on one Dlmalloc (quick N=200; thorough N=200, every 8th case N=5000) over the simulated address space with placement by decision; 1 case in 6 runs 2..3 simulated threads through Mutex<Dlmalloc>. The provider's exact mapped-byte total is sampled after every call; maxima per window of N/8 rounds. Violation = maxima strictly increasing over the last 5 windows AND total growth >= 256 KiB AND mapped bytes at the end > 3 x peak live bytes + 8 MiB. non-trivial = >=3 requests per round and at least one trim or unmap happened; distinct = hash over operation counts and provider counters. Every 13th case (case % 13 == 12) runs on engine B instead (crates/checks/src/c04b.rs): probes/allocprobe, a no-libc binary whose global allocator is tiny-std's own GlobalDlMalloc, under the ptrace simulator: 64..200 rounds of 2..4 real threads (1 case in 6: main alone) each doing 1..5 times 'allocate 2..8 blocks (small/medium/>=64 KiB profiles), touch, free in a generated order', all joined, one uncontended alloc/free on main, ROUND_END; scheduling points at every system call and right after every atomic instruction (breakpoints), 2..6 further single steps behind an atomic instruction every other time with the preempted thread held back 0..12 quanta, <=24 random bursts; mapped bytes = the tracer's mapping ledger at each ROUND_END (cross-checked with /proc/pid/maps); same growth oracle, signature footprint|unbounded-growth|global-allocator; non-trivial there = >=2 threads and a futex park or a burst while two threads were alive".into()
+        "each case = one seeded workload round (1..50 requests from the C03 size profiles and alignments, free order forward/reverse/interleaved/random, frees in the middle of a round, 0..3 small long-lived blocks, 1 request in 5 reached by doubling reallocs from an eighth of its size, a huge-size profile of 6..42 MiB, optional steady-state churn, optional sparse mmap refusals) repeated N times on one Dlmalloc (quick N=200; thorough N=200, every 8th case N=5000) over the simulated address space with placement by decision; 1 case in 6 runs 2..3 simulated threads through Mutex<Dlmalloc>. The provider's exact mapped-byte total is sampled after every call; maxima per window of N/8 rounds. Violation = maxima strictly increasing over the last 5 windows AND total growth >= 256 KiB AND mapped bytes at the end > 3 x peak live bytes + 8 MiB; or: the simulated 4 GiB address space was used up while mapped bytes at the end exceed both half of it and 3 x peak live bytes + 8 MiB. non-trivial = >=3 requests per round and at least one trim or unmap happened; distinct = hash over operation counts and provider counters. Every 13th case (case % 13 == 12) runs on engine B instead (crates/checks/src/c04b.rs): probes/allocprobe, a no-libc binary whose global allocator is tiny-std's own GlobalDlMalloc, under the ptrace simulator: 64..200 rounds of 2..4 real threads (1 case in 6: main alone) each doing 1..5 times 'allocate 2..8 blocks (small/medium/>=64 KiB profiles), touch, free in a generated order', all joined, one uncontended alloc/free on main, ROUND_END; scheduling points at every system call and right after every atomic instruction (breakpoints), 2..6 further single steps behind an atomic instruction every other time with the preempted thread held back 0..12 quanta, <=24 random bursts; mapped bytes = the tracer's mapping ledger at each ROUND_END (cross-checked with /proc/pid/maps); same growth oracle, signature footprint|unbounded-growth|global-allocator; non-trivial there = >=2 threads and a futex park or a burst while two threads were alive".into()
     }
     fn assumptions(&self) -> Vec<String> {
         vec![
